@@ -15,7 +15,7 @@ RULE = (
     "for six pairs of placements in a generated module file (module-level function + its caller through a "
     "call-path selector, method + same-named module-level function and vice versa, function defined inside "
     "a function + its enclosing function, method of a nested class + method, functools.wraps-decorated "
-    "function + plain function) and both codefind cache modes, and with the generated file run as the main "
+    "function + plain function, module-level function + same-named method that is permanently @tooled) and both codefind cache modes, and with the generated file run as the main "
     "module (references with an empty module part): breadth-first search over all operation "
     "sequences up to the depth bound over {activate / deactivate (any order) a probe on the primary function "
     "by name / by reference and on the secondary by name / by reference, call the primary, call the "
@@ -32,6 +32,7 @@ BOUNDS = {"quick": {"depth": 4, "slots": "2 by name + 2 by reference"}, "thoroug
 
 MODULE_SRC = '''
 import functools
+from ptera import tooled
 
 def deco(fn):
     @functools.wraps(fn)
@@ -75,6 +76,17 @@ inner_fn = outer()
 def decorated(x):
     v = x + 5
     return v
+
+def scale(x):
+    # module-level function with the same name as the permanently tooled method Box.scale
+    v = x + 8
+    return v
+
+class Box:
+    @tooled
+    def scale(self, x):
+        v = x + 9
+        return v
 '''
 
 # placement -> (object to pass to refstring, name selector, how to call, what the probed variable is, its value for x)
@@ -85,6 +97,8 @@ PLACEMENTS = {
     "inner-function": ("inner_fn", "inner_fn", lambda m, x: m.inner_fn(x), "v", lambda x: x + 4),
     "decorated": ("decorated", "decorated", lambda m, x: m.decorated(x), "v", lambda x: x + 5),
     "module-meth": ("meth", "meth", lambda m, x: m.meth(x), "v", lambda x: x + 6),
+    "module-scale": ("scale", "scale", lambda m, x: m.scale(x), "v", lambda x: x + 8),
+    "tooled-method": ("Box.scale", "Box.scale", lambda m, x: m.Box().scale(x), "v", lambda x: x + 9),
     "outer-function": ("outer", "outer", lambda m, x: m.outer() and None, "k", lambda x: 7),
     # a call path: the secondary probe is `caller > top > v`; calling it runs the primary function top
     "caller-path": ("caller", "caller", lambda m, x: m.caller(x), "v", lambda x: x + 1),
@@ -97,6 +111,7 @@ PAIRS = [
     ("inner-function", "outer-function"),
     ("nested-class-method", "method"),
     ("decorated", "top"),
+    ("module-scale", "tooled-method"),
 ]
 MAIN_PAIRS = {"quick": [("top", "caller-path"), ("nested-class-method", "method")], "thorough": PAIRS}
 SLOTS = ["N1", "R1", "Q1", "Q2"]  # primary by name / by reference, secondary by name / by reference
